@@ -145,6 +145,12 @@ func loadKnown() []known {
 // Finish writes the evidence file, prints KNOWN-FINDING / VIOLATION lines and
 // exits the process: 0 if nothing unlisted was violated, 1 otherwise.
 func (r *Run) Finish(t *testing.T) {
+	if FreeRun() > 0 || os.Getenv("VERIF_RACEPASS") != "" {
+		// race pass: no verdict and no evidence file; the race detector's
+		// reports are collected by racepass.sh
+		fmt.Printf("RACEPASS-DONE property=%s violations-ignored=%d\n", r.ID, r.NViolations())
+		os.Exit(0)
+	}
 	r.mu.Lock()
 	defer r.mu.Unlock()
 	ks := loadKnown()
@@ -231,6 +237,19 @@ func oneLine(s string) string {
 
 // Fatal reports an infrastructure problem (never a VIOLATION) and exits 2.
 func Fatal(format string, a ...any) {
+	if FreeRun() > 0 {
+		// race pass: nothing is decided, vacuity / set-up complaints do not apply
+		fmt.Printf("freerun: ignored: "+format+"\n", a...)
+		return
+	}
 	fmt.Printf("CHECK-ERROR: "+format+"\n", a...)
 	os.Exit(2)
+}
+
+// FreeRun reports the number of free-running (scheduler-less) repetitions of
+// each controlled-scheduler scenario requested by the race pass
+// (VERIF_FREERUN); 0 in normal checks.
+func FreeRun() int {
+	n, _ := strconv.Atoi(os.Getenv("VERIF_FREERUN"))
+	return n
 }
